@@ -13,6 +13,14 @@ ASSUMPTIONS = [
     'tables are regenerated from /repo on every run (coq/Gen); _bech32_polymod and convertbits are additionally '
     're-translated from the source text and proved equal to the model functions (coq/Glue/Bech32Glue.v)',
     'tie to /repo: differential correspondence of every lib_* function against the public API on each run',
+    'Bech32/Bech32m: decode(encode) identity, accepted => canonical re-encoding, convertbits 8->5->8 and its exact '
+    'pad=False rejection condition are theorems for all inputs; the encoder side is stated for the input '
+    'convention of pubkeyhash_to_addr_bech32 (enc_input: bare program of 20/32/40 bytes, else header + program; '
+    'program lengths 18/30/38 excluded - known finding bech32_enc_header_ambiguity) and under the hypothesis that the produced string has at '
+    'most 90 characters; detection theorems cover ONE substituted data-part character and ONE adjacent '
+    'transposition of data-part characters (plus mixed case, over-length, foreign character); insertions, '
+    'deletions, a data character replaced by the separator, errors in the human-readable part and multi-character '
+    'errors are covered by the exhaustive single-edit sweeps (testing) only',
     'Base58Check rejection of corrupted strings rests on a 32-bit hash: the theorem is accept-soundness '
     '(accepted => checksum equals H(H(body))[:4]) for an arbitrary H; the exhaustive single-edit sweeps are testing',
     'the float comparison in change_base (expected_length == len(output)) is not modelled; the run checks on the '
